@@ -19,7 +19,7 @@ package patch
 
 // C18/C01: a nil (or typed-nil) resource or value is rejected with ErrInvalidInput
 //@ func (e *Expression) Insert(res, value, index, options) (err)
-//@   requires e != nil && (forall j int :: 0 <= j && j < len(options) ==> options[j] != nil)
+//@   requires e != nil && e.expression != nil && (forall j int :: 0 <= j && j < len(options) ==> options[j] != nil)
 //@   ensures res == nil || value == nil ==> is(err, ErrInvalidInput)
 //@   ensures res != nil && value != nil && (!pbValid(pbReflect(res)) || !pbValid(pbReflect(value))) ==> is(err, ErrInvalidInput)
 //@   ensures err != nil ==> ghost(pbw) == old(ghost(pbw))
@@ -38,7 +38,7 @@ package patch
 //@     invariant forall k int :: index < k && k <= i && i > index ==> dlAt(ghost(pbv), list, k) == pbAt(existing, k - 1)
 //@   assigns *, ghost:pbw, ghost:pbv, ghost:pbwKind, ghost:pbwMsg, ghost:pbwFld, ghost:pbwVal, ghost:pbwVer
 //@ func (e *Expression) Replace(resource, value, options) (err)
-//@   requires e != nil && (forall j int :: 0 <= j && j < len(options) ==> options[j] != nil)
+//@   requires e != nil && e.expression != nil && (forall j int :: 0 <= j && j < len(options) ==> options[j] != nil)
 //@   ensures resource == nil || value == nil ==> is(err, ErrInvalidInput)
 //@   ensures resource != nil && value != nil && (!pbValid(pbReflect(resource)) || !pbValid(pbReflect(value))) ==> is(err, ErrInvalidInput)
 //@   ensures err != nil ==> ghost(pbw) == old(ghost(pbw))
@@ -47,7 +47,7 @@ package patch
 //@   ensures err == nil && pbIsList(ghost(pbwFld)) ==> exists d int :: forall k int :: 0 <= k && k < pbLen(pbListOf(pbGet(ghost(pbwMsg), ghost(pbwFld)))) && k != d ==> dlAt(ghost(pbwVer), pbListOf(ghost(pbwVal)), k) == pbAt(pbListOf(pbGet(ghost(pbwMsg), ghost(pbwFld))), k)
 //@   assigns *, ghost:pbw, ghost:pbv, ghost:pbwKind, ghost:pbwMsg, ghost:pbwFld, ghost:pbwVal, ghost:pbwVer
 //@ func (e *Expression) Delete(res, options) (err)
-//@   requires e != nil && (forall j int :: 0 <= j && j < len(options) ==> options[j] != nil)
+//@   requires e != nil && e.expression != nil && (forall j int :: 0 <= j && j < len(options) ==> options[j] != nil)
 //@   ensures res == nil ==> is(err, ErrInvalidInput)
 //@   ensures res != nil && !pbValid(pbReflect(res)) ==> is(err, ErrInvalidInput)
 //@   ensures err != nil ==> ghost(pbw) == old(ghost(pbw))
@@ -56,7 +56,7 @@ package patch
 //@   ensures err == nil && ghost(pbw) == old(ghost(pbw)) + 1 && ghost(pbwKind) == 1 ==> pbIsList(ghost(pbwFld)) && pbDetL(pbListOf(ghost(pbwVal))) && dlLen(ghost(pbwVer), pbListOf(ghost(pbwVal))) == pbLen(pbListOf(pbGet(ghost(pbwMsg), ghost(pbwFld)))) - 1
 //@   assigns *, ghost:pbw, ghost:pbv, ghost:pbwKind, ghost:pbwMsg, ghost:pbwFld, ghost:pbwVal, ghost:pbwVer
 //@ func (e *Expression) Add(res, name, value, options) (err)
-//@   requires e != nil && (forall j int :: 0 <= j && j < len(options) ==> options[j] != nil)
+//@   requires e != nil && e.expression != nil && (forall j int :: 0 <= j && j < len(options) ==> options[j] != nil)
 //@   ensures res == nil || value == nil ==> err != nil
 //@   ensures res != nil && value != nil && (!pbValid(pbReflect(res)) || !pbValid(pbReflect(value))) ==> err != nil
 //@   ensures err != nil ==> ghost(pbw) == old(ghost(pbw))
@@ -193,6 +193,6 @@ package patch
 // evaluation of the compiled path: writes no protobuf state (the interface contract of
 // Expression.Evaluate and the frame of ApplyOptions name none); a result comes with its context
 //@ func (e *Expression) evaluate(res, options) (ctx, result, err)
-//@   requires e != nil && (forall j int :: 0 <= j && j < len(options) ==> options[j] != nil)
+//@   requires e != nil && e.expression != nil && (forall j int :: 0 <= j && j < len(options) ==> options[j] != nil)
 //@   ensures err == nil ==> ctx != nil
 //@   assigns *
